@@ -378,6 +378,9 @@ func run(prop, tier string, meta Meta) {
 	if len(zeroProbes) > 0 {
 		fmt.Printf("WARNING reach probes at zero: %v\n", zeroProbes)
 	}
+	if n := merged.Probes["budget_cutoff"]; n > 0 {
+		fmt.Printf("NOTE time budget reached: %d of %d workers stopped before the end of their batch (thorough tier only; evaluations above is what was covered)\n", n, workers)
+	}
 	if len(violLines) > 0 {
 		for _, l := range violLines {
 			fmt.Println(l)
